@@ -129,15 +129,15 @@ def matrixBody (t : Option (List Char)) (s : List Char) : Option ((RefCell × Re
   let s1 := optDollar s
   let c1 := s1.takeWhile isUp
   if c1 = [] then none else
-  let (_, r1, s2) := optRow (s1.dropWhile isUp)
-  match s2 with
+  let o1 := optRow (s1.dropWhile isUp)
+  match o1.2.2 with
   | colon :: s3 =>
     if colon = ':' then
       let s4 := optDollar s3
       let c2 := s4.takeWhile isUp
       if c2 = [] then none else
-      let (_, r2, rest) := optRow (s4.dropWhile isUp)
-      if matrixRestOk rest then some ((⟨t, c1, r1⟩, ⟨t, c2, r2⟩), rest) else none
+      let o2 := optRow (s4.dropWhile isUp)
+      if matrixRestOk o2.2.2 then some ((⟨t, c1, o1.2.1⟩, ⟨t, c2, o2.2.1⟩), o2.2.2) else none
     else none
   | [] => none
 
@@ -156,14 +156,14 @@ def rangeAlt1 (t : Option (List Char)) (s : List Char) : Option ((RefCell × Ref
   let s1 := optDollar s
   let c1 := s1.takeWhile isUp
   if c1 = [] then none else
-  let (_, r1, s2) := optRow (s1.dropWhile isUp)
-  match s2 with
+  let o1 := optRow (s1.dropWhile isUp)
+  match o1.2.2 with
   | colon :: s3 =>
     if colon = ':' then
       match stripPrefix c1 (optDollar s3) with
       | some s5 =>
-        let (_, r2, rest) := optRow s5
-        if rangeRestOk rest then some ((⟨t, c1, r1⟩, ⟨t, c1, r2⟩), rest) else none
+        let o2 := optRow s5
+        if rangeRestOk o2.2.2 then some ((⟨t, c1, o1.2.1⟩, ⟨t, c1, o2.2.1⟩), o2.2.2) else none
       | none => none
     else none
   | [] => none
@@ -194,12 +194,12 @@ def rangeAlt2 (t : Option (List Char)) (s : List Char) : Option ((RefCell × Ref
   let s1 := optDollar s
   let c1 := s1.takeWhile isUp
   if c1 = [] then none else
-  let (g, r, s2) := optRow (s1.dropWhile isUp)
-  match s2 with
+  let o1 := optRow (s1.dropWhile isUp)
+  match o1.2.2 with
   | colon :: s3 =>
     if colon = ':' then
       let s4 := optDollar s3
-      rangeAlt2Tail t c1 g r s4 (s4.takeWhile isUp).length
+      rangeAlt2Tail t c1 o1.1 o1.2.1 s4 (s4.takeWhile isUp).length
     else none
   | [] => none
 
@@ -265,9 +265,9 @@ def literalTok (s : List Char) : Option (Lit × List Char) :=
     if c = '"' then (strBody '"' r).map (fun p => (Lit.str p.1, p.2))
     else if isDigit c then
       let int := s.takeWhile isDigit
-      let (frac, hf, s2) := optFrac (s.dropWhile isDigit)
-      let (exp, he, s3) := optExp s2
-      some (Lit.num int frac hf exp he, s3)
+      let f := optFrac (s.dropWhile isDigit)
+      let e := optExp f.2.2
+      some (Lit.num int f.1 f.2.1 e.1 e.2.1, e.2.2)
     else match stripPrefix "TRUE".toList s with
       | some rest => some (Lit.tru, optCall rest)
       | none => match stripPrefix "FALSE".toList s with
@@ -283,7 +283,10 @@ def numTooLarge (int frac exp : List Char) : Bool :=
   let m := natOf (int ++ frac)
   let t := 2 ^ 1024 - 2 ^ 970
   let e : Int := (match exp with | '-' :: ds => - (natOf ds : Int) | ds => (natOf ds : Int)) - (frac.length : Int)
-  if 0 ≤ e then decide (t ≤ m * 10 ^ e.toNat) else decide (t * 10 ^ (-e).toNat ≤ m)
+  if m = 0 then false
+  else if 310 < e then true                                         -- m ≥ 1, so m·10^e > 10^310
+  else if e + ((int ++ frac).length : Int) < 0 then false           -- m < 10^(number of digits) ≤ 10^(−e): the value is below 1
+  else if 0 ≤ e then decide (t ≤ m * 10 ^ e.toNat) else decide (t * 10 ^ (-e).toNat ≤ m)
 
 /-- the constructor of LiteralToken raises `The number is too large` -/
 def litTooLarge (s : List Char) : Bool :=
